@@ -164,3 +164,34 @@ mtext("C17",
       "trusted: snapshot comparison, abort trap; range clause only sampled",
       "deterministic simulation with fault injection: misbehaving hash callback at chosen call ordinals, fail-stop + no-write oracle",
       "DESIGN.md 4.C17")
+
+check("C08", "exploration",
+      [dict(world="map", mode=8, variants={"rel": 0.8, "asan": 0.2}, quick=60000, thorough=6000000)],
+      RULE_SEQ + "; a quarter of the runs attach an allocation failure to some inserts",
+      ["src/map.c", "src/rbtree.c", "src/bintree.c", "include/cstl/map.h"],
+      required_probes=["insert_new", "insert_existing", "alloc_fail_fired", "erase_present", "erase_absent", "erase_iterator", "find_present", "find_absent", "map_clear"])
+mtext("C08",
+      "Seeded histories of insert (new key / existing key value carried by a different key object), find, erase by key, erase by iterator and clear against a dict model; "
+      "return codes and iterator contents are compared exactly (stored pointers, end iterator), every map node is a sim-heap block so 'one node per entry, freed exactly once, nothing left after clear' "
+      "is checked after every step, and the embedded red-black tree is audited (strict order, colours, black height, parent links). Node allocation failure is injected on a fraction of inserts "
+      "(must return -1 with the end iterator and leave the map unchanged). Three comparison functions. Sampling; no closure claimed.",
+      "trusted: dict model, sim-heap accounting, tree audit through the public rbtree/bintree node layout and __cstl_bintree_cmp",
+      "deterministic simulation: seeded histories + allocator fault injection vs reference model",
+      "DESIGN.md 4.C08")
+
+ALLOC_STUBS = ["realloc placement policy (always move / in place when shrinking / in place when it fits) and a finite heap budget, both from the plan"]
+RULE_ALLOC = ("one evaluation = one seeded plan executed against the real library with the reference model and the sim-heap block table (128-bit size arithmetic) checked after every operation; "
+              "allocator faults ride on the operation they hit; at most one abort-provoking operation per run, placed last; distinct = distinct plan hash; non-trivial = the container held >= 2 elements at some point")
+check("C09", "exploration",
+      [dict(world="vector", mode=9, variants=V_ALLOC, quick=80000, thorough=8000000)],
+      RULE_ALLOC, ["src/vector.c", "include/cstl/vector.h", "src/array.c (sort/reverse)"], stubs=ALLOC_STUBS,
+      required_probes=["alloc_fail_fired", "enomem_over_budget", "byte_count_unrepresentable", "realloc_moved", "realloc_inplace", "reserve_unsatisfied",
+                       "resize_must_abort", "at_out_of_range", "growth_from_null", "shrink_to_zero", "swap", "sort", "reverse", "clear"])
+mtext("C09",
+      "Seeded histories of resize/reserve/shrink_to_fit/clear/swap/sort/reverse/at on 1-2 vectors (element sizes 1,2,4,8,3,5,7,12,24,64; with/without constructor and destructor) with sizes from small values, "
+      "size/capacity +-1, the heap-budget boundary, SIZE_MAX, SIZE_MAX/es and neighbours. After every operation: capacity >= size, the data pointer is the start of a live sim-heap block of at least (capacity+1)*es bytes (128-bit), "
+      "every in-range element still holds its bytes (always-move realloc and poisoned old blocks expose stale bases), at() addresses base+i*es or aborts, constructor/destructor ran exactly once per entering/leaving index. "
+      "An unsatisfiable growth (injected failure, over budget, unrepresentable byte count) must be a no-op for reserve and an abort for resize with a clean heap audit at the abort.",
+      "trusted: tag model, sim-heap block table, prediction rule 'fails iff unrepresentable or the allocator said no'; glibc realloc(p,0)",
+      "deterministic simulation with allocator fault injection (failure, placement, finite memory) and abort trap vs reference model",
+      "DESIGN.md 4.C09")
